@@ -1,4 +1,5 @@
 """serves concrete replay requests against the unpatched /repo mako (see realproc)."""
+import os
 import pickle
 import struct
 import sys
@@ -6,7 +7,7 @@ import traceback
 
 
 def main():
-    sys.path.insert(0, "/repo")
+    sys.path.insert(0, os.environ.get("MAKO_TREE", "/repo"))
     inp, out = sys.stdin.buffer, sys.stdout.buffer
     sys.stdout = sys.stderr
     from props import realops
